@@ -334,6 +334,9 @@ class FrameChecker:
                     out.extend(cands)
                     self.note(fi, f"{classes[0].qualname.split('.')[-1]}.{name}", "repo-method", line)
                     return
+        if name == "replace" and len(node.args) >= 2:
+            self.note(fi, "<str>.replace", "pure-method", line)     # str.replace(old, new); Path.replace takes one argument
+            return
         if name in EFFECT_METHODS and not (name == "open" and False):
             if name == "open":
                 mode = open_mode(ast.Call(func=f, args=[ast.Constant(value="_")] + list(node.args), keywords=node.keywords))
